@@ -85,6 +85,28 @@ func adversarial(sizes []int) []advCase {
 		}
 		fmt.Fprintf(&sb, " fragment D%d on Q{a}", n)
 		out = append(out, advCase{"fan-out under inline fragments and directives", n, sb.String()})
+		// a pair of fragment chains compared first under fields of two different object types
+		// (mutually exclusive parents) and then under one type, in both orders, without and with a cycle
+		for _, variant := range []struct{ name, head string; cyclic bool }{
+			{"fragment pairs: exclusive parents first", "{i{... on Q{c: q{...X0}} ... on R{c: q{...Y0}}} q{d: q{...X0} d: q{...Y0}}}", false},
+			{"fragment pairs: one parent first", "{q{d: q{...X0} d: q{...Y0}} i{... on Q{c: q{...X0}} ... on R{c: q{...Y0}}}}", false},
+			{"fragment pairs with a cycle: exclusive parents first", "{i{... on Q{c: q{...X0}} ... on R{c: q{...Y0}}} q{d: q{...X0} d: q{...Y0}}}", true},
+		} {
+			sb.Reset()
+			sb.WriteString(variant.head)
+			for i := 0; i < n; i++ {
+				nx := i + 1
+				if variant.cyclic && nx == n {
+					nx = 0
+				}
+				if nx == n {
+					fmt.Fprintf(&sb, " fragment X%d on Q{a} fragment Y%d on Q{a}", i, i)
+				} else {
+					fmt.Fprintf(&sb, " fragment X%d on Q{b: q{...X%d} e: q{...X%d}} fragment Y%d on Q{b: q{...Y%d} e: q{...Y%d}}", i, nx, nx, i, nx, nx)
+				}
+			}
+			out = append(out, advCase{variant.name, n, sb.String()})
+		}
 		// fragment cycle through fields, overlapping on a field with sub-selections
 		sb.Reset()
 		sb.WriteString("{q{...C0}}")
@@ -181,6 +203,8 @@ func runC02(c *core.Ctx) {
 		nStress = 40000
 	}
 	cases = append(cases, OverlapStress(c.Rng, nStress)...)
+	cases = append(cases, TypeMatrix()...)
+	cases = append(cases, DupStress(c.Rng, nStress/2)...)
 	// schema loading on arbitrary SDL and on single-fault schemas
 	type lc struct{ srcs []string }
 	var loads []lc
